@@ -8,4 +8,6 @@ mkdir -p bin evidence replays
 go build -o bin/vcheck ./cmd/vcheck
 go build -o bin/vinstr ./cmd/vinstr
 ./bin/vcheck prebuild
+# conformance of the scheduler shims with the real Go primitives (informational: it uses short wall-clock waits)
+./bin/vcheck shimconf || echo "shimconf reported mismatches - see output above (does not affect the checks)"
 echo setup ok
